@@ -83,12 +83,12 @@ def _balanced_compositions(rw, x, nr, elements, with_charge):
             continue
         if with_charge:
             for _try in range(60):
-                a = [rw.choice([0, 0, 0, 1, -1, 2, -2]) for _ in range(nr)]
+                a = [rw.choice([0, 0, 0, 1, -1, 2, -2] + ([10, -12, 11] if rw.random() < 0.15 else [])) for _ in range(nr)]
                 T = sum(xi * ai for xi, ai in zip(x[:nr], a))
                 b = [rw.choice([0, 0, 1, -1, 2]) for _ in range(n - nr - 1)]
                 part = sum(xj * bj for xj, bj in zip(x[nr:-1], b))
                 restv = T - part
-                if restv % x[-1] != 0 or abs(restv // x[-1]) > 4:
+                if restv % x[-1] != 0 or abs(restv // x[-1]) > 14:
                     continue
                 b.append(restv // x[-1])
                 if not any(a + b):
@@ -300,6 +300,8 @@ def gen_case(seed, run, tier):
             "container": container, "subs": subs, "calls": calls, "enumerate": enum}
     if variant == "big":
         case["witness"] = {sp["key"]: xi for sp, xi in zip(species, x)}
+    if rs.random() < (0.5 if subs == "factory" else 0.15) and variant != "big":
+        case["cold_decoy"] = True
     return case
 
 
@@ -709,7 +711,7 @@ def execute(case):
         faulted = bool(faults)
         vs = judge(case, call, rec, faulted)
         for v in vs:
-            explicit = {k: case[k] for k in ("property", "variant", "species", "reac", "prod", "container", "subs", "witness") if k in case}
+            explicit = {k: case[k] for k in ("property", "variant", "species", "reac", "prod", "container", "subs", "witness", "cold_decoy") if k in case}
             explicit["calls"] = [dict(call, faults=[dict(f) for f in faults])]
             if not faults and call.get("cold"):
                 explicit["calls"][0]["cold"] = [dict(f) for f in call["cold"]]
@@ -747,12 +749,15 @@ def execute(case):
         if len(sp) < 2:
             return
         rot = [dict(s, comp=sp[(i + 1) % len(sp)]["comp"]) for i, s in enumerate(sp)]
-        dcase = dict(case, species=rot, subs="explicit")
+        dcase = dict(case, species=rot, subs="factory" if case["subs"] == "factory" else "explicit")
         rec = do_call(dcase, dict(call, faults=[]), [])
         hist.append(dict(_hist_rec(rec), decoy=True))
         bump("decoy_calls")
         bump("decoy:" + rec["outcome"].split(":")[0])
 
+    if case.get("cold_decoy") and case["calls"]:
+        # the very first thing this process sees under these keys are OTHER compositions
+        decoy(case["calls"][0])
     for call in case["calls"]:
         faults0 = call.get("faults") or []
         for cold in call.get("cold", []) if not faults0 else []:
@@ -795,7 +800,7 @@ def execute(case):
                 if t is not None and t["d"] == 1:
                     same = first["result"] == second.get("result")
             if not same:
-                explicit = {k: case[k] for k in ("property", "variant", "species", "reac", "prod", "container", "subs", "witness") if k in case}
+                explicit = {k: case[k] for k in ("property", "variant", "species", "reac", "prod", "container", "subs", "witness", "cold_decoy") if k in case}
                 explicit["calls"] = [dict(call, faults=[], after="decoy")]
                 explicit["enumerate"] = None
                 v = core.violation("history_dependence", "the same call gave %s first and %s after a decoy call / injected faults" % (
